@@ -95,7 +95,9 @@ def generate(rng, tier):
         plan["pprop"] = {"type": pt, "value": tdsl.gen_value(rng, pt, pool, positions, ("pr",))}
     if kind == "func":
         plan["addition"] = rng.choice([None, "leaf"])   # **kwargs: Leaf or none
-        plan["args"] = [tdsl.gen_value(rng, ["leaf"], pool, positions, ("*", i)) for i in range(rng.choice([0, 0, 1, 2]))]
+        # the type of the surplus positional values: a harness leaf or a constrained (Rule) leaf
+        plan["argtype"] = ["rleaf"] if RL and rng.random() < 0.5 else ["leaf"]
+        plan["args"] = [tdsl.gen_value(rng, plan["argtype"], pool, positions, ("*", i)) for i in range(rng.choice([0, 0, 1, 2, 3]))]
         if plan["args"]:
             # varargs require every named parameter to be passed positionally
             plan["drop"] = []
@@ -190,7 +192,8 @@ def build(plan, collect, faulted=True):
             params.append(f"{f['name']}: T_{f['name']}" + ("" if f["required"] else " = None"))
     if plan.get("posonly"):
         params.insert(min(plan["posonly"], len(params)), "/")
-    params.append("*args: Leaf")
+    env["T_args"] = tdsl.build_type(plan.get("argtype") or ["leaf"])
+    params.append("*args: T_args")
     if plan["addition"] == "leaf":
         params.append("**kwargs: Leaf")
     src = "def f(%s):\n    return dict(locals())\n" % ", ".join(params)
@@ -286,7 +289,7 @@ def ground_truth(plan, stats):
             G.add("<max_params>")
             stats["probe:max_params_exceeded"] += 1
     for i, a in enumerate(plan.get("args", [])):
-        if _item_fails(["leaf"], tdsl.build_value(a)):
+        if _item_fails(plan.get("argtype") or ["leaf"], tdsl.build_value(a)):
             G.add("*%d" % i)
             stats["probe:varargs_fault"] += 1
     # a field that is given and fine demands its dependencies (an invalid one is reported itself and demands nothing)
